@@ -144,6 +144,24 @@ func runC05(c c05case) (string, *c05ref) {
 	if real.CommitIndex() != 0 {
 		return "fresh commitment reports a commit index", ref
 	}
+	// the constructor is a second way into every configuration: the fresh object must be in the state the
+	// reference is in (exactly the voters tracked, all at 0), which is what justifies sharing visited states
+	// between roots
+	if m0, _, _ := real.Dump(); len(m0) != len(ref.match) {
+		return fmt.Sprintf("fresh commitment tracks %v, voters are %v", m0, ref.match), ref
+	} else {
+		for id, v := range m0 {
+			k := -1
+			for i := range c05ids {
+				if c05ids[i] == id {
+					k = i
+				}
+			}
+			if _, ok := ref.match[k]; !ok || v != 0 {
+				return fmt.Sprintf("fresh commitment tracks %v, voters are %v", m0, ref.match), ref
+			}
+		}
+	}
 	for i, o := range c.Ops {
 		before := real.CommitIndex()
 		rose := ref.apply(o)
@@ -202,7 +220,13 @@ func enumC05(ctx *CheckCtx, shard, of int) *Stats {
 			// BFS over reference states; every transition is executed on the real type by replaying the path
 			type nd struct{ ops []c05op }
 			root := c05case{Init: init, Start: start}
-			_, r0 := runC05(root)
+			d0, r0 := runC05(root)
+			st.Execs++
+			if d0 != "" {
+				st.Violations = append(st.Violations, FoundViolation{Violation: Violation{Prop: "C05", Sig: "commitment-differs-from-majority-rule", Msg: fmt.Sprintf("configuration %v startIndex %d: %s", init, start, d0)},
+					Scenario: "enum-commitment", Case: root})
+				return st
+			}
 			if seen[r0.key()] {
 				continue
 			}
